@@ -321,6 +321,7 @@ func (fr *Frame) unknownCall(key string, results *types.Tuple, st *State, pos to
 	st.alloc = a
 	u.epochAlloc[st.epoch] = a
 	fr.preserveLocals(pre, st)
+	fr.preservePrivateArrays(pre, st, nil)
 	for g, old := range st.ghost {
 		if g == "epoch" || strings.HasPrefix(g, "visited") {
 			continue
@@ -537,7 +538,9 @@ func (fr *Frame) callDynamic(fv Term, c *ssa.CallCommon, args []Term, st *State,
 	var branches []branch
 	var notAny []Term
 	for _, cs := range cands {
-		cond := Eq(fnid, IntLit(int64(cs.id)))
+		// closure values are allocated objects; plain functions used as values are static locations (negative object
+		// ids) whose ClosFn entry is meaningless
+		cond := And(Gt(Obj(fv), IntLit(0)), Eq(fnid, IntLit(int64(cs.id))))
 		notAny = append(notAny, Not(cond))
 		bs := st.clone()
 		bs.pc = u.define("pc", And(st.pc, cond))
